@@ -163,6 +163,10 @@ def protocol_independence_obligations(ctx, rep, rule):
 
 def check(ctx, rep):
     prog = ctx.prog
+    rep.rule("R15h", "= R10e: an entry served from the directory cache carries every field of the generated one (a size of 0 stays 0): +VIEWS and "
+             "+INFO of a cached listing are those of a fresh one", floor=1)
+    from .c10 import complete_pickling_obligations
+    complete_pickling_obligations(ctx, rep, "R15h")
     rep.rule("R15a", "getinfoblock uses the plain Gopher renderobjinfo", floor=1)
     rep.rule("R15b", "every fixed block name has a renderer; block list adds one block per extended attribute", floor=4)
     rep.rule("R15c", "length prefix agrees with the body (shared with C04/R04b)", floor=5)
